@@ -213,6 +213,15 @@ def c05(tier):
         sm = [rnd.choice(castlings(p))] if (i % 4 and i % 2) else []
         plan.append(plan_line(p["fen"], "depth %d" % rnd.randint(9, 14), sm=sm, tt=rnd.choice(["fresh", "warm"]), stop_id=rnd.choice(["node", "node", "qnode"]),
                               stop_n=rnd.randint(1500, 150000), tag="late"))
+    # a second go WITHOUT a position command in between (same table epoch: what the first search stored for the root - exact, or only a
+    # bound after an aspiration fail-high - is trusted by the second one): deeper first, then shallower and equal depths
+    for i in range(400 if full else 60):
+        p = rnd.choice(quiet)
+        d1 = rnd.choice([4, 5, 5, 6])
+        plan.append(plan_line(p["fen"], "depth %d" % d1, tt="fresh" if i % 3 == 0 else "warm", tag="again"))
+        plan.append(plan_line(p["fen"], "depth %d" % rnd.randint(1, d1), tt="again", tag="again"))
+        if i % 2:
+            plan.append(plan_line(p["fen"], rnd.choice(["depth 1", "movetime 30", "nodes 3000"]), tt="again", tag="again"))
     # searches from positions WITH a game history (repetition cuts inside the tree, fifty-move clocks): deeper, pv-heavy runs
     hp = os.path.join(ck.work, "histpool.txt")
     core.run_vh(exe, ["pool-hist", "--roots", all_roots(ck), "--n", 600 if full else 60, "--maxply", 24, "--out", hp, "--seed", core.seed() + 3])
@@ -406,13 +415,16 @@ def c08(tier):
     def gen(i):
         outp = os.path.join(ck.work, "nearmate%d.txt" % i)
         core.run_vh(exe, ["nearmate-pool", "--out", outp, "--refuted", (250 if full else 50), "--zugzwang", (12 if full else 0), "--max-tries", 600000,
-                          "--seed", core.seed() * 100 + i], timeout=3000)
+                          "--minimal", ((1600 if full else 300) if i == 0 else 0), "--seed", core.seed() * 100 + i], timeout=3000)
         return [l.rstrip("\n").split("|") for l in open(outp)]
     with ThreadPoolExecutor(max_workers=gens) as ex:
         near = [r for part in ex.map(gen, range(gens)) for r in part]
     plan2 = []
     for f in near:
-        if f[5].startswith("nm-refuted"):
+        if f[5] == "nm-minimal":     # mates in one with the least material that can mate (the draw-by-material test must not pre-empt them)
+            for d in ([1, 2, 3] if full else [1, 2]):
+                plan2.append(plan_line(f[0], "depth %d" % d, tt="fresh" if d == 1 else "warm", tag="m1"))
+        elif f[5].startswith("nm-refuted"):
             for d in ([1, 2, 3] if full else [1, 2]):
                 plan2.append(plan_line(f[0], "depth %d" % d, tt="fresh" if d == 1 else "warm", tag="near"))
         else:
@@ -427,7 +439,7 @@ def c08(tier):
     info["runs"] += i2["runs"]
     info["logged"] += i2["logged"]
     info["crashes"] += i2["crashes"]
-    ck.cov["near_mate_roots"] = dict(refuted=sum(1 for f in near if f[5].startswith("nm-refuted")), zugzwang_generated=sum(1 for f in near if f[5].startswith("nm-zz")),
+    ck.cov["near_mate_roots"] = dict(minimal_mates=sum(1 for f in near if f[5] == "nm-minimal"), refuted=sum(1 for f in near if f[5].startswith("nm-refuted")), zugzwang_generated=sum(1 for f in near if f[5].startswith("nm-zz")),
                                      zugzwang_corpus=len(zz), runs=i2["runs"])
     others = {}
     dis = [v for v in viols if v.get("kind") == "solver_disagrees_with_specification"]
@@ -732,12 +744,17 @@ def c10(tier):
     # 8. the same question asked of the optimised build by valgrind's memcheck: a conditional jump, an address or a system call that
     #    depends on an uninitialised value; positions loaded from FENs of every specialised endgame class (piece lists partly unused),
     #    searched to depth 2 / 3 through the real front end
-    sparse_pool = [p for p in make_pool(ck, plain, 4, 160 if full else 60, seed_off=41) if p["src"] == "sparse"]
+    cf = os.path.join(ck.work, "classpool.txt")
+    core.run_vh(plain, ["pool", "--roots", core.roots_file("roots_lowmat.fen"), "--games", 0, "--sparse", 0, "--classes", 3 if full else 1, "--out", cf, "--seed", core.seed() + 41])
+    sparse_pool = [dict(fen=l.split("|")[0], src=l.rstrip("\n").split("|")[5]) for l in open(cf)]
+    sparse_pool = [p for p in sparse_pool if p["src"] == "class"]
+    if len(sparse_pool) < 40:
+        raise InfraError("class pool for the valgrind session too small: %d" % len(sparse_pool))
     vscript = ["uci", "@wait uciok", "ucinewgame"]
-    for pp in sparse_pool[: (120 if full else 40)]:
+    for pp in sparse_pool:
         vscript += ["position fen " + pp["fen"], "go depth %d" % rnd.choice([2, 3]), "@wait bestmove"]
     vscript += ["position startpos moves e2e4 c7c5", "go depth 3", "@wait bestmove", "isready", "@wait readyok", "quit"]
-    res = process_session(["valgrind", "--error-exitcode=9", "-q", build.engine_exe("plain")], vscript, {}, limit_s=120)
+    res = process_session(["valgrind", "--error-exitcode=9", "-q", build.engine_exe("plain")], vscript, {}, limit_s=300)
     vrep = [l for l in res["stderr"].splitlines() if l.startswith("==") and ("uninitialised" in l or "Invalid read" in l or "Invalid write" in l)]
     ck.cov["valgrind_session"] = dict(positions=len(vscript) // 3, exit=res["exit"], reports=len(vrep), bestmoves=len([l for l in res["out"] if l.startswith("bestmove")]))
     if vrep or res["exit"] != 0:
